@@ -80,6 +80,11 @@ func ServeRegistered(kind int) any              { panic("intrinsic") }
 func BlockOK()                                 { panic("intrinsic") }
 func NondetSelect()                            { panic("intrinsic") }
 func OnSelect(f func())                        { panic("intrinsic") }
+func FilesRemoved() int                        { panic("intrinsic") }
+func FileRemoved(i int) string                 { panic("intrinsic") }
+func TablesDropped() int                       { panic("intrinsic") }
+func DBClosed() int                            { panic("intrinsic") }
+func FieldTag(sample any, field, key string) string { panic("intrinsic") }
 func IgnoreGo()                                { panic("intrinsic") }
 func SchedulerMayRefuse()                      { panic("intrinsic") }
 // GinContext: wildcards are the catch-all route parameters (*name), which gin delivers with a leading "/".
